@@ -51,13 +51,17 @@ private:
 [[nodiscard]] constexpr auto operator+(chrono::year_month const& ym, chrono::months const& dm) noexcept
     -> chrono::year_month
 {
-    return {ym.year(), ym.month() + dm};
+    // Carry whole years into the year field (floor division), like std::chrono.
+    auto const dmi = static_cast<long long>(static_cast<unsigned>(ym.month())) - 1 + dm.count();
+    auto const dy  = (dmi >= 0 ? dmi : dmi - 11) / 12;
+    auto const mo  = static_cast<unsigned>(dmi - dy * 12 + 1);
+    return {ym.year() + chrono::years{static_cast<int>(dy)}, chrono::month{mo}};
 }
 
 [[nodiscard]] constexpr auto operator+(chrono::months const& dm, chrono::year_month const& ym) noexcept
     -> chrono::year_month
 {
-    return {ym.year(), ym.month() + dm};
+    return ym + dm;
 }
 
 [[nodiscard]] constexpr auto operator-(chrono::year_month const& ym, chrono::years const& dy) noexcept
@@ -69,7 +73,7 @@ private:
 [[nodiscard]] constexpr auto operator-(chrono::year_month const& ym, chrono::months const& dm) noexcept
     -> chrono::year_month
 {
-    return {ym.year(), ym.month() - dm};
+    return ym + -dm;
 }
 
 // [[nodiscard]] constexpr auto operator-(chrono::year_month const& ym1, chrono::year_month const&
